@@ -5,8 +5,7 @@ Mirrors `parser/ast` for the core language. Lists that occur inside the mutually
 syntax are spelled out as their own inductive types (`PExprs`, `PFields`, `PArms`, `PLits`,
 `PStmts`) so that every function and proof over the syntax is plain mutual structural
 recursion. Not modelled (programs using them are answered `UNSUPPORTED` by the driver):
-imports, singletons, `impl` blocks, `trigger` statements, annotations, `spawn`, type
-definitions.
+imports, singletons, `impl` blocks, `trigger` statements, annotations, type definitions.
 -/
 namespace Hms.Check
 
@@ -53,6 +52,8 @@ inductive PExpr where
   /-- `op = none` is plain `=` -/
   | assign (op : Option InfixOp) (l r : PExpr)
   | call (base : PExpr) (args : PExprs)
+  /-- `spawn name(args)`: the parser only accepts an identifier as the base of a `spawn` -/
+  | spawn (name : String) (args : PExprs)
   | index (b i : PExpr)
   | member (b : PExpr) (name : String) (op : MemberOp)
   | cast (e : PExpr) (t : PTy)
